@@ -282,6 +282,15 @@ def controller_posterior(case, df, keys):
                 c.set_data(df, output_observable_dict=oo, covariate_dict=cov_dict,
                            **keys)
     else:
+        if case.get('earlier_dosed_data'):
+            # the same individuals' records WITH dose rows were given first; the
+            # final dataset has no dose information
+            df0, keys0 = make_frame(dict(case, dosing=True))
+            c.set_data(df0, output_observable_dict=oo, **keys0)
+            if case['earlier_dosed_data'] == 'posterior':
+                c.set_log_prior(build_prior(c.get_n_parameters()))
+                c.get_log_posterior()
+            keys = dict(keys, dose_key=None, dose_duration_key=None)
         c.set_data(df, output_observable_dict=oo, **keys)
     if case.get('earlier_pop') is not None:
         # another population model (other roles for the same covariates) was in
@@ -521,7 +530,9 @@ def individuals(n, two_obs, dosing, with_cov, seed, replicates=False):
         if replicates:
             # replicate measurements: the same observable at the same time again
             obs['A'] = sorted(obs['A'] + [(ta[0], va[0] * 1.1 + 0.2)]
-                              + ([(ta[-1], va[-1] * 0.9)] if i == 1 else []))
+                              + ([(ta[-1], va[-1] * 0.9)] if i == 1 else [])
+                              # (two replicates with the very same reading)
+                              + ([(ta[-1], va[-1])] if i != 1 else []))
         if dosing == 'same_row':
             ind['doses'] = [[(0.4, 2.0, 0.5)], [(0.5, 1.0, None), (1.5, 3.0, 0.25)],
                             [(0.2, 1.5, 0.3)]][i % 3]
@@ -607,6 +618,19 @@ def build(tier, seed):
                         if not direct:
                             c['pop'] = None
                         dose_cases.append(c)
+    # a dataset with dose rows was given before the final one without dose
+    # information: the posteriors are those of the final dataset (undosed)
+    for n in (1, 2, 3):
+        inds = individuals(n, False, True, False, seed)
+        for (bo, it) in orders(n, 'quick'):
+            for how in (True, 'posterior'):
+                for direct in (True, False):
+                    dose_cases.append({
+                        'model': 'lib1', 'inds': inds, 'id_type': 'int',
+                        'block_order': bo, 'interleave': it, 'dosing': False,
+                        'extras': {'duration_column': True}, 'pop': None,
+                        'direct': direct, 'seed': seed,
+                        'earlier_dosed_data': how})
     # the controller is told which outputs to use (and in which order), with the
     # model's outputs left alone or set beforehand to another order / selection
     for oarg in ('same', 'reversed', 'second', 'first'):
@@ -899,3 +923,4 @@ META['level_text'] += (
     'uts without a map, covariate records without a value, count-coincidence design'
     "s, the user's model reconfigured after the controller was built, the plain cal"
     'l repeated after evaluateS1.')
+META['level_text'] += (' Wave 9: replicates with identical readings, a dataset with dose rows given before the final dataset without dose information.')
